@@ -62,7 +62,10 @@ def render_need(n):
     if k == "cmp":
         goal = n["goal"]
         g = goal["path"] if isinstance(goal, dict) else lit(goal)
-        s = "%s %s %s" % (n["state"], n["op"], g)
+        if isinstance(goal, dict) and goal.get("field"):
+            g = "%s in %s" % (goal["field"], goal["path"])       # explicit goal field
+        st = n["state"] if not n.get("sfield") else "%s in %s" % (n["sfield"], n["state"])
+        s = "%s %s %s" % (st, n["op"], g)
         if n.get("tol") is not None:
             s += " +- %s" % lit(n["tol"])
         return pre + s
@@ -74,7 +77,11 @@ def render_need(n):
         if n.get("re") is not None:
             s += " re" + ((" " + n["re"]) if n["re"] else "")
         goal = n["goal"]
-        s += " %s %s" % (n["op"], goal["path"] if isinstance(goal, dict) else lit(goal))
+        if isinstance(goal, dict):
+            g = ("%s in %s" % (goal["field"], goal["path"])) if goal.get("field") else goal["path"]
+        else:
+            g = lit(goal)
+        s += " %s %s" % (n["op"], g)
         if n.get("tol") is not None:
             s += " +- %s" % lit(n["tol"])
         return pre + s
@@ -166,7 +173,10 @@ def render(prog, house="h"):
     lines = ["house %s" % house]
     linemap = {}
     for path, val in prog.get("inits", []):
-        lines.append("init %s with %s" % (path, lit(val)))
+        if isinstance(val, dict):      # several named fields
+            lines.append("init %s with %s" % (path, " ".join("%s %s" % (k, lit(v)) for k, v in val.items())))
+        else:
+            lines.append("init %s with %s" % (path, lit(val)))
     for fr in prog["framers"]:
         s = "framer %s be %s" % (fr["name"], fr["sched"])
         if fr.get("order"):
